@@ -17,5 +17,6 @@ for id in "$@"; do
   res=$(cd "$VERIF_ROOT" && VERIF_DIR=$OUT ${VERIF_SEED:+VERIF_SEED=$VERIF_SEED} $OUT/lab check $id -tier ${TIER:-quick} 2>&1)
   echo "$id $(echo "$res" | grep -E '^(HELD|VIOLATED|INCONCLUSIVE)' | tail -1) [$(( $(date +%s)-s ))s]"
   echo "$res" | grep -E 'signature:' | sort | uniq -c | sort -rn | head -6 | cut -c1-230
+  echo "$res" | grep -iE '^ *inconclusive' | head -4 | cut -c1-400
 done
 rm -rf $OUT
